@@ -68,6 +68,16 @@ package propertyf
 //@   ensures [C04] (ok8 && err == nil) ==> st.IPropertyVer == (k8 == 0 ? decIntV(src, q7, 7, d0) : 1)
 //@   ensures [C06] (ok7 && k8 == 2) ==> err != nil
 //@   ensures [C04] ok8 ==> (err == nil && readBuf.buf.i == q8)
+//@   site ).Read#0 assert [C04] $2 == 0 && $3 == true
+//@   site ).Read#1 assert [C04] $2 == 1 && $3 == true
+//@   site ).Read#2 assert [C04] $2 == 2 && $3 == true
+//@   site ).Read#3 assert [C04] $2 == 3 && $3 == false
+//@   site ).Read#4 assert [C04] $2 == 4 && $3 == false
+//@   site ).Read#5 assert [C04] $2 == 5 && $3 == false
+//@   site ).Read#6 assert [C04] $2 == 6 && $3 == false
+//@   site ).Read#7 assert [C04] $2 == 7 && $3 == false
+//@   sites ).Read = 8
+//@   sites ).Skip = 0
 //@   safety [C05]
 //
 //@ func (*StatPropMsgHead).ReadBlock
@@ -161,6 +171,10 @@ package propertyf
 //@   ensures [C04] (ok2 && err == nil) ==> st.Value == (k2 == 0 ? decStrV(src, q1, 1, d0) : old(st.Value))
 //@   ensures [C06] (ok1 && k2 == 2) ==> err != nil
 //@   ensures [C04] ok2 ==> (err == nil && readBuf.buf.i == q2)
+//@   site ).Read#0 assert [C04] $2 == 0 && $3 == true
+//@   site ).Read#1 assert [C04] $2 == 1 && $3 == true
+//@   sites ).Read = 2
+//@   sites ).Skip = 0
 //@   safety [C05]
 //
 //@ func (*StatPropInfo).ReadBlock
@@ -215,6 +229,11 @@ package propertyf
 //@   ensures [C05] validR(readBuf)
 //@   loop 0 modifies elems(st.VInfo), readBuf.buf.i, readBuf.depth
 //@   loop 0 invariant [C05] validR(readBuf) && readBuf.buf.i >= p0 && st != nil && len(st.VInfo) == e0 && 0 <= i0
+//@   site ).Read#0 assert [C04] $2 == 0 && $3 == true
+//@   site ).Read#1 assert [C04] $2 == 0 && $3 == true
+//@   sites ).Read = 2
+//@   site ).Skip#0 assert [C04] $1 == 0 && $2 == true
+//@   sites ).Skip = 1
 //@   safety [C05]
 //
 //@ func (*StatPropMsgBody).ReadBlock
